@@ -58,7 +58,9 @@ const EXT_PACKAGE: &str = r#"{
 
 /// The seeded world: two Persons (keys a, b), one Preference (key d), one
 /// Insight with two structural references, tuple (a prefers d) with Evidence
-/// and a supporting Assertion, and a functional slot (a status "on").
+/// and a supporting Assertion, and a contested functional slot: the rival
+/// tuples (a status "on") = P-2, supported by b, and (a status "off") = P-3,
+/// supported by a (`status` is declared `functional: true` in BASE_PACKAGE).
 pub const SEED: &str = r#"MUTATE {
     CREATE CONCEPT ?a { TYPE "Person" NAME "Ann" SET FIELDS {key: "a"} SET ATTRIBUTES {display_name: "Ann"} }
     CREATE CONCEPT ?b { TYPE "Person" NAME "Bob" SET FIELDS {key: "b"} }
@@ -68,12 +70,15 @@ pub const SEED: &str = r#"MUTATE {
                         SET STRUCTURAL { ("about", ?d) ("mentions", ?a) } }
     ENSURE PROPOSITION ?p (?a, "prefers", ?d)
     ENSURE PROPOSITION ?s (?a, "status", "on")
+    ENSURE PROPOSITION ?s2 (?a, "status", "off")
     CREATE EVIDENCE ?e { SET FIELDS {evidence_class: "user_statement", payload: "I prefer dark.", observed_at: "2026-01-01T00:00:00Z"} }
     CREATE ASSERTION ?as { SET FIELDS {proposition: ?p, asserted_by: ?a, stance: "support", mode: "stated",
                                        confidence: 0.9, asserted_at: "2026-01-02T00:00:00Z"}
                            SET STRUCTURAL { ("evidence", ?e) {role: "support"} } }
     CREATE ASSERTION ?as2 { SET FIELDS {proposition: ?s, asserted_by: ?b, stance: "support", mode: "observed",
                                         confidence: 0.7, asserted_at: "2026-01-03T00:00:00Z"} }
+    CREATE ASSERTION ?as3 { SET FIELDS {proposition: ?s2, asserted_by: ?a, stance: "support", mode: "stated",
+                                        confidence: 0.8, asserted_at: "2026-01-04T00:00:00Z"} }
 }"#;
 
 /// Byte-level snapshots of the bootstrapped database.
